@@ -64,11 +64,12 @@ check('C12',
       'Coq theorems (Props/C12.v, axiom-free) on a model mirroring snippet line by line (bounds test on the double t+n, int(t), residual '
       'shift, the 1e-8 no-op threshold of time_shift, one-sample crop, re-slice): ValueError exactly when n<0, t<0 or t+n>len; otherwise '
       'exactly n samples, start = start + t/rate exactly (None stays None), window offset floor(t); whole-sample t is the plain slice '
-      '(bit-identical data). PARTIAL: the band-limited value of fractional snippets is checked numerically against an independent O(N^2) '
-      'longdouble interpolant (tolerance 1e-5 max|x|, set by the complex64 ramp), not proved here (DFT shift theorem: C03).',
-      'Trusted: Coq kernel; scipy.fft = mathematical DFT (validated numerically each run); astropy Time/Quantity within tolerance. Known '
+      '(bit-identical data); over C, every n >= 1: the residual shift zero-fills only the cropped last sample and sample k of a tone is the '
+      'band-limited continuation of that tone at t + k, the map being linear (C12_value_tone, C12_not_zeroed). PARTIAL: scipy.fft = that DFT '
+      'and rounding: fractional snippets are checked numerically against an independent O(N^2) longdouble interpolant (1e-5 max|x|).',
+      'Trusted: Coq kernel + stdlib real-number axioms for the value theorem; scipy.fft = mathematical DFT (validated numerically each run); astropy Time/Quantity within tolerance. Known '
       'finding D12 (boundary requests given as Time/Quantity may raise) is listed in known_findings.json.',
-      'machine-checked proof in Coq (Q) + correspondence run + numerical oracle for values',
+      'machine-checked proof in Coq (Q; values over R/C) + correspondence run + numerical oracle for values',
       'DESIGN.md 5 C12')
 
 check('C05',
